@@ -532,6 +532,12 @@ pub fn check_wrong_point<S: Sch<Pt = Vec<<S as Sch>::F>>>(rec: &mut Rec) {
             // and the prover's side for every length (even lengths included)
             let r = open_single::<S>(&keys, &c, &[0], &zo, 0, rec.seed, 0);
             if let Ok(s2) = r {
+                if s2.undefined {
+                    // the polynomial type itself cannot be evaluated at this point: there is no claim a proof could
+                    // be about, the request is outside the domain of every scheme over this polynomial type
+                    refused(rec, S::NAME, "open", "point-the-polynomial-cannot-be-evaluated-at", &id, true, format!("point with {} coordinates for a polynomial in {} variables (its own `evaluate` refuses the point): a proof was produced", onv, nv_key));
+                    continue;
+                }
                 let mut v2 = s2.values.clone();
                 v2[0] += S::F::one();
                 let f = check_single::<S>(&keys, &cr, &zo, &v2, &s2.proof, 0, rec.seed, 0);
@@ -658,6 +664,7 @@ fn variables_for<S: Sch>(rec: &mut Rec, nv_key: usize, others: Vec<usize>) {
             let r = open_single::<S>(&keys, &c, &[0], &z, 0, rec.seed, 0);
             match r {
                 Err(_) => refused(rec, S::NAME, "open", "point-of-wrong-length", &id, false, String::new()),
+                Ok(s1) if s1.undefined => refused(rec, S::NAME, "open", "point-the-polynomial-cannot-be-evaluated-at", &id, true, format!("point with {} coordinates for a polynomial in {} variables (its own `evaluate` refuses the point): a proof was produced", onv, nv_key)),
                 Ok(s1) => {
                     let cr: Vec<&LCm<S>> = c.comms.iter().collect();
                     let d = check_single::<S>(&keys, &cr, &z, &s1.values, &s1.proof, 0, rec.seed, 0);
